@@ -337,7 +337,8 @@ pub fn get_best_move_entry(
         return Some((moves.first().copied(), 0, true));
     }
 
-    let mut killer_moves = [None; 32];
+    // Indexed by the distance from the root, a u8
+    let mut killer_moves = [None; 256];
     let mut best_move = None;
     let mut best_score = Score::MIN + 1;
 
@@ -463,7 +464,12 @@ pub fn get_best_move_until_stop(
         })
         .unwrap_or(1);
 
-    for depth in starting_depth.. {
+    // Never start deeper than the requested limit or the deepest supported search
+    let starting_depth = starting_depth
+        .min(max_depth.unwrap_or(MAX_SEARCH_DEPTH))
+        .clamp(1, MAX_SEARCH_DEPTH);
+
+    for depth in starting_depth..=MAX_SEARCH_DEPTH {
         let Some((best_move, best_score, is_only_move)) =
             get_best_move_entry(game.clone(), continue_running, depth, table, &mut history)
         else {
@@ -497,7 +503,7 @@ pub fn get_best_move_until_stop(
         println!();
 
         // If mate can be forced, or there is only a single move available, stop searching
-        if max_depth.is_some_and(|d| d == depth)
+        if max_depth.is_some_and(|d| d <= depth)
             || is_only_move
             || best_score > Score::MAX - 1000
             || best_score < Score::MIN + 1000
@@ -506,8 +512,11 @@ pub fn get_best_move_until_stop(
         }
     }
 
-    unreachable!()
+    found_move
 }
+
+/// Deepest iteration of the iterative deepening (distances from the root stay well inside u8)
+const MAX_SEARCH_DEPTH: u8 = 127;
 
 fn first_legal_move(game: &Game) -> Option<Move> {
     let mut moves = ArrayVec::new();
